@@ -99,6 +99,8 @@ func main() {
 	free := fs.Bool("free", false, "degraded mode: free-running goroutines, no simulator control")
 	wantSigs := fs.Bool("sigs", false, "include every run signature in the result")
 	budgetMs := fs.Int64("budget-ms", 0, "stop after this much wall time (0 = none)")
+	searchN := fs.Int("search", 0, "replay: instead of the recorded schedule try this many seeded schedules of the recorded workload")
+	searchOff := fs.Int("search-offset", 0, "replay -search: first schedule number")
 	clock := fs.Bool("clock", false, "the library reads the (simulated) clock: inject clock jumps")
 	fs.IntVar(&soakCalls, "soak", 70000, "oracle -order soak: number of calls to make in the one process")
 	progPath := fs.String("progress", "", "progress file (one line per started call / run) for post-mortem of a crashed process")
@@ -152,7 +154,7 @@ func main() {
 	case "replay":
 		var rec proto.Record
 		readJSON(*recPath, &rec)
-		runReplay(&rec, *build, *free)
+		runReplay(&rec, *build, *free, *searchN, *searchOff)
 	default:
 		die("unknown mode %s", mode)
 	}
@@ -419,7 +421,7 @@ func toProtoEvents(ev []simrt.Event, max int) []proto.Event {
 	return out
 }
 
-func runReplay(rec *proto.Record, build string, free bool) {
+func runReplay(rec *proto.Record, build string, free bool, searchN, searchOff int) {
 	t0 := time.Now()
 	if !free {
 		debug.SetGCPercent(-1)
@@ -442,7 +444,33 @@ func runReplay(rec *proto.Record, build string, free bool) {
 			gcNow()
 		}
 	}
-	if viol == nil {
+	if viol == nil && searchN > 0 && !free {
+		// schedule search on the recorded workload: seeded policies instead of the script
+		est := int64(0)
+		for a := 0; a < searchN && viol == nil; a++ {
+			run := rec.Run
+			run.Scripted = false
+			run.Events = nil
+			run.First = -1
+			run.Policy = searchPolicy(&rec.Run, searchOff+a, est)
+			progress(strconv.Itoa(len(rec.Prefix)))
+			o := execRun(&run, false)
+			res.Runs++
+			if o.sim.Steps > est {
+				est = o.sim.Steps
+			}
+			if len(o.viol) > 0 {
+				viol = o.viol
+				last = o
+				where = len(rec.Prefix)
+				run.Events = toProtoEvents(o.sim.Events, -1)
+				run.Scripted = !o.sim.Truncated
+				rec.Run = run
+			} else {
+				gcNow()
+			}
+		}
+	} else if viol == nil {
 		progress(strconv.Itoa(len(rec.Prefix)))
 		o := execRun(&rec.Run, free)
 		res.Runs++
@@ -466,4 +494,36 @@ func runReplay(rec *proto.Record, build string, free bool) {
 	if res.Record != nil {
 		os.Exit(3)
 	}
+}
+
+// searchPolicy: the a-th seeded schedule tried by replay -search.
+func searchPolicy(run *proto.RunRec, a int, est int64) proto.PolicyRec {
+	r := &rnd{mix(run.Policy.Seed, uint64(a), 0x5ea)}
+	if est <= 0 {
+		est = 50000
+	}
+	nt := len(run.Tasks)
+	p := proto.PolicyRec{Seed: r.next(), EstSteps: est}
+	switch a % 5 {
+	case 0:
+		p.Kind, p.PBound = "seq", 0.5
+	case 1:
+		p.Kind, p.PShared, p.PAPI, p.PPlain, p.PBound = "walk", 0.1+0.4*r.f(), 0.05+0.25*r.f(), logU(r, -5, -3), 0.3
+	case 2:
+		p.Kind, p.Depth = "pct", 1+r.n(3)
+	case 3:
+		p.Kind, p.HerdAt, p.PShared, p.PAPI, p.PPlain, p.PBound = "herd", int64(r.n(40))-1, 0.5, 0.3, logU(r, -4.5, -2.5), 0.3
+	default:
+		p.Kind = "stall"
+		p.StallTask = r.n(nt)
+		for tries := 0; tries < 8 && len(run.Tasks[p.StallTask].Ops) == 0; tries++ {
+			p.StallTask = r.n(nt)
+		}
+		if ops := run.Tasks[p.StallTask].Ops; len(ops) > 0 {
+			p.StallOp = int32(ops[r.n(len(ops))].ID)
+		}
+		p.StallStep = 1 + int64(r.next()%uint64(est/int64(nt)+1))
+		p.PShared, p.PAPI, p.PPlain, p.PBound = 0.2, 0.1, logU(r, -5.5, -3.5), 0.3
+	}
+	return p
 }
